@@ -170,7 +170,8 @@ func daemonStress(args []string) int {
 		hangs += forcedAddWindow(enc, gate, late)
 		hangs += forcedStartWindow(enc, gate, late)
 		hangs += forcedLateLowerOrder(enc, late)
-		n += 3
+		hangs += forcedFinishedDuringShutdown(enc)
+		n += 4
 	}
 	// (a daemon that hangs costs a bounded wait per trace: a few hung traces are evidence enough)
 	for tr := 0; tr < *traces && hangs < 5; tr++ {
@@ -250,6 +251,26 @@ func forcedLateLowerOrder(enc *json.Encoder, late bool) int {
 	r.add(2, -1, mode, 20*time.Millisecond, false)
 	r.goThread(3, func() { r.saw(3) })
 	return r.finish(enc, 3*time.Second)
+}
+
+// forcedFinishedDuringShutdown: four orders; the shutdown is waiting for the worker of the highest order (which returns late)
+// when the worker of the third order returns on its own; the second order's worker returns late as well.  The lowest order
+// may only be stopped after the second one has returned - a finished worker in between does not move the barrier.
+func forcedFinishedDuringShutdown(enc *json.Encoder) int {
+	r := newSrun("forced", true)
+	r.goThread(1, func() {
+		r.log(core.Ev{"op": "startBegin", "t": 1})
+		r.d.Start()
+		r.log(core.Ev{"op": "startEnd", "t": 1})
+	})
+	sched.Quiesce(2 * time.Second)
+	r.add(1, 4, "late", 300*time.Millisecond, false)
+	r.add(2, 3, "late", 200*time.Millisecond, false)
+	r.add(3, 2, "early", 120*time.Millisecond, false)
+	r.add(4, 1, "prompt", 0, false)
+	time.Sleep(30 * time.Millisecond)
+	r.goThread(3, func() { r.saw(3) })
+	return r.finish(enc, 5*time.Second)
 }
 
 func mixedRun(enc *json.Encoder, rng *rand.Rand, tr int) int {
